@@ -1,0 +1,15 @@
+//go:build verif
+
+// Contracts for the deductive verifier in /verif (govc). This file contains only comments:
+// with or without the build tag it adds no code to the package.
+package cli
+
+// ---------------------------------------------------------------------------------------
+// C17 / C08: error positions (cli/error.go)
+// ---------------------------------------------------------------------------------------
+
+//@ func indexNewline(str string) (i int)
+//@   property C17
+//@   ensures -1 <= i && i < len(str)
+//@   ensures i >= 0 ==> (str[i] == '\n' || str[i] == '\r')
+//@   ensures forall k :: {str[k]} 0 <= k && k < len(str) && (i < 0 || k < i) ==> (str[k] != '\n' && str[k] != '\r')
